@@ -357,3 +357,141 @@ def kind_churn_scripts(seed, per_kind, n_ops, tid0, kinds=None, far=False):
             res.append({"tid": tid, "cfg": {"kinds": [kind], "reg": [REGS[j % len(REGS)]]}, "ops": ops, "sweep": "full"})
             tid += 1
     return res
+
+
+def fault_scripts(seed, n, tid0, kinds=None):
+    """C19: short histories in which the k-th destructor call of a destroying
+    operation panics (for every storage kind, every destroying operation, k = first,
+    k-th, last), followed by further operations on the other entities / storages and
+    by teardown (optionally with a panicking destructor as well)."""
+    kinds = kinds or KINDS
+    res = []
+    DESTROY = ["clear", "delete", "delete_batch", "delete_all", "edelete_maintain", "insert_dead", "or_insert_occ",
+               "lazy_none", "drain_partial", "remove", "overwrite"]
+    for i in range(n):
+        rng = random.Random((seed * 48271 + i * 101) & 0xFFFFFFFF)
+        S = rng.choice([1, 2, 2, 3])
+        ks = [kinds[(i + 7 * j + rng.randrange(3)) % len(kinds)] for j in range(S)]
+        ne = rng.randint(3, 7)
+        ops = []
+        for e in range(ne):
+            ops.append({"o": "create", "with": [s for s in range(S) if rng.random() < 0.8]})
+        nh = ne
+        live = set(range(ne))
+        for _ in range(rng.randint(0, 4)):
+            ops.append({"o": "sop", "path": rng.choice(["insert", "remove", "get_mut"]), "s": rng.randrange(S), "h": rng.randrange(nh)})
+        nf = rng.choice([1, 1, 2])
+        for f in range(nf):
+            d = DESTROY[(i + f * 5) % len(DESTROY)]
+            k = rng.choice([1, 1, 2, 2, 3, 4, 6])
+            s = rng.randrange(S)
+            if d == "clear":
+                inner = {"o": "wop", "k": "clear", "s": s}
+            elif d == "delete":
+                h = rng.choice(sorted(live)) if live else 0
+                inner = {"o": "delete", "h": h}
+                live.discard(h)
+            elif d == "delete_batch":
+                hs = rng.sample(sorted(live), min(len(live), rng.randint(1, 3))) if live else [0]
+                inner = {"o": "delete_batch", "hs": hs}
+                live -= set(hs)
+            elif d == "delete_all":
+                inner = {"o": "delete_all"}
+                live = set()
+            elif d == "edelete_maintain":
+                hs = rng.sample(sorted(live), min(len(live), rng.randint(1, 3))) if live else [0]
+                for h in hs:
+                    ops.append({"o": "edelete", "h": h})
+                live -= set(hs)
+                inner = {"o": "maintain"}
+            elif d == "insert_dead":
+                dead = [h for h in range(nh) if h not in live]
+                if not dead:
+                    h = rng.choice(sorted(live)) if live else 0
+                    ops.append({"o": "delete", "h": h})
+                    live.discard(h)
+                    dead = [h]
+                inner = {"o": "sop", "path": "insert", "s": s, "h": rng.choice(dead)}
+            elif d == "or_insert_occ":
+                inner = {"o": "sop", "path": rng.choice(["or_insert", "or_insert_with"]), "s": s, "h": rng.choice(sorted(live)) if live else 0}
+            elif d == "drain_partial":
+                inner = {"o": "wop", "k": "drain", "s": s, "n": rng.choice([1, 2, -1])}
+            elif d == "remove":
+                inner = {"o": "sop", "path": "remove", "s": s, "h": rng.choice(sorted(live)) if live else 0}
+            elif d == "overwrite":
+                inner = {"o": "sop", "path": rng.choice(["insert", "entry_replace"]), "s": s, "h": rng.choice(sorted(live)) if live else 0}
+            else:
+                inner = {"o": "wop", "k": "clear", "s": s}
+            ops.append({"o": "fault", "k": k, "op": inner})
+            # the world must remain usable: operations on the other entities and storages (no creations)
+            for _ in range(rng.randint(2, 8)):
+                x = rng.random()
+                hpool = sorted(live) if live else list(range(nh))
+                if x < 0.55:
+                    ops.append({"o": "sop", "path": rng.choice(ALL_PATHS), "s": rng.randrange(S), "h": rng.choice(hpool), "w": rng.random() < 0.7})
+                elif x < 0.8:
+                    ops.append({"o": "wop", "k": rng.choice(["join", "joinmut", "count", "slice", "restrict", "entries", "joinent"]),
+                                "s": rng.randrange(S), "v": rng.choice(["join", "lend", "read", "mut_lend"]), "sel": 0xffff, "wsel": rng.randrange(1 << 16)})
+                elif x < 0.9 and live:
+                    h = rng.choice(sorted(live))
+                    ops.append({"o": "delete", "h": h})
+                    live.discard(h)
+                else:
+                    ops.append({"o": "maintain"})
+        sc = {"tid": tid0 + i, "cfg": {"kinds": ks, "reg": [REGS[(i + j) % len(REGS)] for j in range(S)]}, "ops": ops, "sweep": "full"}
+        if rng.random() < 0.35:
+            sc["fault_teardown"] = rng.choice([1, 2, 3])
+        res.append(sc)
+    return res
+
+
+def fault_churn_scripts(seed, per_kind, tid0, kinds=None):
+    """C19, bulk destruction interrupted: fill one storage, let the k-th destructor of
+    clear / delete_all / maintain / drain panic, then keep using *that* storage for a
+    long time (insert / remove / lookups / joins) before teardown: stale internal tables
+    left behind by the interrupted bulk operation surface only later."""
+    kinds = kinds or KINDS
+    res = []
+    tid = tid0
+    for ki, kind in enumerate(kinds):
+        for j in range(per_kind):
+            rng = random.Random((seed * 69621 + ki * 1009 + j * 17) & 0xFFFFFFFF)
+            ne = rng.randint(3, 6)
+            ops = [{"o": "create", "with": [0] if rng.random() < 0.85 else []} for _ in range(ne)]
+            bulk = ["clear", "clear", "delete_some", "drain", "edelete_maintain"][j % 5]
+            k = [1, 2, 3, 1, 2, 4][j % 6]
+            live = list(range(ne))
+            if bulk == "clear":
+                inner = {"o": "wop", "k": "clear", "s": 0}
+            elif bulk == "drain":
+                inner = {"o": "wop", "k": "drain", "s": 0, "n": -1}
+                k = 1
+            elif bulk == "delete_some":
+                hs = rng.sample(live, max(1, ne // 2))
+                inner = {"o": "delete_batch", "hs": hs}
+                live = [h for h in live if h not in hs]
+            else:
+                hs = rng.sample(live, max(1, ne // 2))
+                for h in hs:
+                    ops.append({"o": "edelete", "h": h})
+                live = [h for h in live if h not in hs]
+                inner = {"o": "maintain"}
+            ops.append({"o": "fault", "k": k, "op": inner})
+            if not live:
+                live = [0]
+            for _ in range(rng.randint(25, 50)):
+                x = rng.random()
+                h = rng.choice(live)
+                if x < 0.35:
+                    ops.append({"o": "sop", "path": rng.choice(PATHS["insert"]), "s": 0, "h": h})
+                elif x < 0.62:
+                    ops.append({"o": "sop", "path": rng.choice(PATHS["remove"]), "s": 0, "h": h})
+                elif x < 0.85:
+                    ops.append({"o": "sop", "path": rng.choice(PATHS["read"] + PATHS["write"]), "s": 0, "h": h, "w": rng.random() < 0.7})
+                elif x < 0.95:
+                    ops.append({"o": "wop", "k": rng.choice(["join", "joinmut", "count", "slice"]), "s": 0, "v": rng.choice(["join", "lend"]), "sel": 0xffff, "wsel": rng.randrange(1 << 16)})
+                else:
+                    ops.append({"o": "fault", "k": rng.choice([1, 2]), "op": {"o": "wop", "k": "clear", "s": 0}})
+            res.append({"tid": tid, "cfg": {"kinds": [kind], "reg": [REGS[j % len(REGS)]]}, "ops": ops, "sweep": "full"})
+            tid += 1
+    return res
